@@ -466,8 +466,9 @@ def seeded_changes() -> List[Tuple[str, str, Dict[str, List[str]]]]:
     return out
 
 
-def benign_changes() -> List[Tuple[str, str]]:
-    """(id, patch path) for every reviewed behaviour-preserving refactoring under /verif/benign."""
+def benign_changes():
+    """(id, patch path, properties for which 'undecided' (exit 2, no violation) is the accepted answer) for every
+    reviewed behaviour-preserving refactoring under /verif/benign."""
     import json
     from .core import VERIF
     out = []
@@ -483,12 +484,12 @@ def benign_changes() -> List[Tuple[str, str]]:
         except ValueError:
             continue
         if meta.get("suite_ok") and meta.get("reviewed_benign", True):
-            out.append((d, pp))
+            out.append((d, pp, set(meta.get("accepted_undecided", []))))
     return out
 
 
 def _work_benign(args) -> dict:
-    bid, patch, prop, repo, scratch, base_keys = args
+    bid, patch, prop, repo, scratch, base_keys, undecided_ok = args
     import subprocess
     from . import core
     root = os.path.join(scratch, "benign-%s-%s" % (bid, prop))
@@ -501,6 +502,10 @@ def _work_benign(args) -> dict:
         run = core.run_property(prop, root, "quick")
         new = [o for o in run.violated if o.key not in base_keys]
         ok = not new and not run.errors
+        if not new and run.errors and undecided_ok:
+            # the refactoring leaves the modelled subset (documented in DESIGN.md): the honest answer is 'cannot decide'
+            return {"id": "refactor:" + bid, "prop": prop, "status": "silent", "benign": True, "undecided": True,
+                    "desc": "behaviour-preserving refactoring %s (undecided: %s)" % (bid, run.errors[0][:120]), "detail": []}
         return {"id": "refactor:" + bid, "prop": prop, "status": "silent" if ok else "noisy", "benign": True,
                 "desc": "behaviour-preserving refactoring " + bid, "detail": [o.key for o in new][:3] + run.errors[:2]}
     finally:
@@ -562,7 +567,7 @@ def run(prop: str, repo: str, jobs: int = 4, seed: int = 0) -> dict:
     try:
         args = [(mid, p, os.path.abspath(repo), scratch, base_keys) for mid, p in tasks]
         sargs = [(sid, patch, prop, exp[prop], os.path.abspath(repo), scratch, base_keys) for sid, patch, exp in seeded_changes() if prop in exp]
-        bargs = [(bid, patch, prop, os.path.abspath(repo), scratch, base_keys) for bid, patch in benign_changes()]
+        bargs = [(bid, patch, prop, os.path.abspath(repo), scratch, base_keys, prop in und) for bid, patch, und in benign_changes()]
         if jobs <= 1 or len(args) + len(sargs) + len(bargs) <= 1:
             results = [_work(a) for a in args] + [_work_seed(a) for a in sargs] + [_work_benign(a) for a in bargs]
         else:
